@@ -2711,8 +2711,14 @@ theorem gCreate_absent (g : MObj) (c : Bool) (v : Val) (hl : alookup 0 g.props =
 
 theorem sgCreate_absent (g : SObj) (c : Bool) (hl : alookup 0 g.props = none) :
     Spec.gCreate g c = (if g.ext then { g with props := aupsert 0 (.data 0 true true c) g.props } else g) := by
-  simp only [Spec.gCreate, sDefineOwn_eq, hl, sCreateProp]
+  simp only [Spec.gCreate, Spec.gCreate?, sDefineOwn_eq, hl, sCreateProp]
   cases g.ext <;> simp [Spec.isGenericDescriptor, Spec.isDataDescriptor, Spec.isAccessorDescriptor, noPD]
+
+/-- CreateMutableBinding succeeds exactly on an extensible global object (for an absent name) -/
+theorem sgCreate?_absent (g : SObj) (c : Bool) (hl : alookup 0 g.props = none) :
+    Spec.gCreate? g c = if g.ext then some (Spec.gCreate g c) else none := by
+  simp only [Spec.gCreate, Spec.gCreate?, sDefineOwn_eq, hl]
+  cases g.ext <;> simp
 
 theorem alookup_aupsert_self {α} (n : Name) (x : α) (l : List (Name × α)) : alookup n (aupsert n x l) = some x := by
   simp [alookup_aupsert]
@@ -2782,7 +2788,8 @@ theorem lookup_abs0 (g : MObj) : alookup 0 (absObj g).props = (alookup 0 g.props
 
 /-- **every global-binding operation refines ES5 §10.5 / §8.7.2 / §11.4.1** and keeps the global
     object well formed -/
-theorem gStep_refines (g : MObj) (op : GOp) (hw : WFObj g) (hp : g.proto = none) :
+theorem gStep_refines (g : MObj) (op : GOp) (hw : WFObj g) (hp : g.proto = none)
+    (hne : devGlobalNonExt g op = false) :
     (absObj (gStep g op).1, (gStep g op).2) = Spec.gStep (absObj g) op ∧
     WFObj (gStep g op).1 ∧ (gStep g op).1.proto = none := by
   have hi := inv_single g hw hp
@@ -2809,7 +2816,11 @@ theorem gStep_refines (g : MObj) (op : GOp) (hw : WFObj g) (hp : g.proto = none)
     cases hl : alookup 0 g.props with
     | none =>
       have hh : gHas g = false := by simp [gHas, hl]
-      simp only [hh, Bool.not_false, if_true]
+      have hext : g.ext = true := by simpa [devGlobalNonExt, hh] using hne
+      have hl' : alookup 0 (absObj g).props = none := by simp [absObj, alookup_absProps, hl]
+      have hc? := sgCreate?_absent (absObj g) eval hl'
+      have hext' : (absObj g).ext = true := hext
+      simp only [hh, Bool.not_false, if_true, hc?, hext']
       obtain ⟨w1, w2⟩ := gCreate_wf g eval 0 hw hp
       exact ⟨by rw [gCreateVar_refines g eval hl], w1, w2⟩
     | some p =>
@@ -2822,7 +2833,11 @@ theorem gStep_refines (g : MObj) (op : GOp) (hw : WFObj g) (hp : g.proto = none)
     cases hl : alookup 0 g.props with
     | none =>
       have hh : gHas g = false := by simp [gHas, hl]
-      simp only [hh, Bool.not_false, if_true]
+      have hext : g.ext = true := by simpa [devGlobalNonExt, hh] using hne
+      have hl' : alookup 0 (absObj g).props = none := by simp [absObj, alookup_absProps, hl]
+      have hc? := sgCreate?_absent (absObj g) false hl'
+      have hext' : (absObj g).ext = true := hext
+      simp only [hh, Bool.not_false, if_true, hc?, hext']
       obtain ⟨w1, w2⟩ := gCreate_wf g false 0 hw hp
       obtain ⟨s1, s2, s3⟩ := gSet_refines (gCreate g false 0) v w1 w2
       refine ⟨?_, s2, s3⟩
@@ -2837,7 +2852,12 @@ theorem gStep_refines (g : MObj) (op : GOp) (hw : WFObj g) (hp : g.proto = none)
     simp only [gStep, Spec.gStep, lookup_abs0]
     cases hl : alookup 0 g.props with
     | none =>
-      simp only [Option.map_none]
+      have hh : gHas g = false := by simp [gHas, hl]
+      have hext : g.ext = true := by simpa [devGlobalNonExt, hh] using hne
+      have hl' : alookup 0 (absObj g).props = none := by simp [absObj, alookup_absProps, hl]
+      have hc? := sgCreate?_absent (absObj g) eval hl'
+      have hext' : (absObj g).ext = true := hext
+      simp only [Option.map_none, hc?, hext', if_true]
       obtain ⟨w1, w2⟩ := gCreate_wf g eval fnVal hw hp
       refine ⟨?_, w1, w2⟩
       have := gCreateFn_refines g eval hl hp
@@ -2892,6 +2912,22 @@ theorem gStep_refines (g : MObj) (op : GOp) (hw : WFObj g) (hp : g.proto = none)
     obtain ⟨h1, h2⟩ := hr
     refine ⟨?_, hs.1, hs.2⟩
     rw [← h1, headD_absHeap, ← h2]
+  | preventExt =>
+    simp only [gStep, Spec.gStep]
+    have hr := preventExt_refines [g] 0
+    have hs := single_step g (.preventExt 0) hw hp rfl
+    simp only [StepRefines, habs] at hr hs
+    obtain ⟨h1, h2⟩ := hr
+    refine ⟨?_, hs.1, hs.2⟩
+    rw [← h1, headD_absHeap, ← h2]
+  | «seal» =>
+    simp only [gStep, Spec.gStep]
+    have hr := (seal_refines [g] 0 hi).1
+    have hs := single_step g (Op.seal 0) hw hp rfl
+    simp only [StepRefines, habs] at hr hs
+    obtain ⟨h1, h2⟩ := hr
+    refine ⟨?_, hs.1, hs.2⟩
+    rw [← h1, headD_absHeap, ← h2]
   | defn d =>
     simp only [gStep, Spec.gStep]
     have hr := (defn_refines [g] 0 0 d hi).1
@@ -2904,29 +2940,31 @@ theorem gStep_refines (g : MObj) (op : GOp) (hw : WFObj g) (hp : g.proto = none)
 /-- **global-binding histories refine ES5**: any sequence of programs doing identifier assignment,
     `var` / function declarations (global or eval code), `delete` and defineProperty on one global name gives
     the ES5 outcome (incl. TypeError), setter calls and the ES5 descriptor / value after every program -/
-theorem gRun_refines : ∀ (ops : List GOp) (g : MObj), WFObj g → g.proto = none →
+theorem gRun_refines : ∀ (ops : List GOp) (g : MObj), WFObj g → g.proto = none → devGRun g ops = [] →
     gRun g ops = Spec.gRun (absObj g) ops := by
   intro ops
   induction ops with
-  | nil => intro g _ _; rfl
+  | nil => intro g _ _ _; rfl
   | cons op ops ih =>
-    intro g hw hp
-    obtain ⟨h1, h2, h3⟩ := gStep_refines g op hw hp
+    intro g hw hp hd
+    simp only [devGRun, append_nil_iff, ite_singleton_nil] at hd
+    obtain ⟨h1, h2, h3⟩ := gStep_refines g op hw hp hd.1
     have hobs : gObserve (gStep g op).1 = Spec.gObserve (absObj (gStep g op).1) := by
       simp only [gObserve, Spec.gObserve]
       exact (observeName_refines [(gStep g op).1] 0 (gStep g op).1 h2 0).symm
     simp only [gRun, Spec.gRun]
     have e1 : (Spec.gStep (absObj g) op).1 = absObj (gStep g op).1 := by rw [← h1]
     have e2 : (Spec.gStep (absObj g) op).2 = (gStep g op).2 := by rw [← h1]
-    rw [e1, e2, ← hobs, ih _ h2 h3]
+    rw [e1, e2, ← hobs, ih _ h2 h3 hd.2]
 
-theorem gRun_refines_empty (ops : List GOp) : gRun ⟨none, true, []⟩ ops = Spec.gRun ⟨none, true, []⟩ ops :=
-  gRun_refines ops ⟨none, true, []⟩ (fun kp h => by cases h) rfl
+theorem gRun_refines_empty (ops : List GOp) (hd : devGRun ⟨none, true, []⟩ ops = []) :
+    gRun ⟨none, true, []⟩ ops = Spec.gRun ⟨none, true, []⟩ ops :=
+  gRun_refines ops ⟨none, true, []⟩ (fun kp h => by cases h) rfl hd
 
 /-- not vacuous, and the formerly deviating histories now agree: `x = 1; function x(){}; delete x`,
     `eval('var x'); delete x` -/
 example : gRun ⟨none, true, []⟩ [.assign 4, .funDecl false, .del] = Spec.gRun ⟨none, true, []⟩ [.assign 4, .funDecl false, .del] :=
-  gRun_refines_empty _
+  gRun_refines_empty _ (by decide)
 example : ((gRun ⟨none, true, []⟩ [.assign 4, .funDecl false, .del])[2]?).map (·.1) = some (.bool false) := by decide
 example : ((gRun ⟨none, true, []⟩ [.varDecl true, .del])[1]?).map (·.1) = some (.bool true) := by decide
 
